@@ -156,11 +156,21 @@ type solverSpec struct {
 	args func(file string, timeoutS int) []string
 }
 
+// Budgets are resource limits (z3 rlimit, cvc5 --rlimit), not wall-clock time: whether an obligation is discharged
+// does not depend on how loaded the machine is. `-timeout T` gives each solver about the work it does in T seconds
+// on an idle core (calibrated on this machine: z3-new ~2.5M units/s, z3 4.8.12 ~5M/s, cvc5 ~0.25M/s); the wall-clock
+// limit is only a safety net (hardWall).
+func hardWall(t int) int { return 8*t + 20 }
+
 var solvers = []solverSpec{
-	{"z3-new", func(f string, t int) []string { return []string{"z3-new", fmt.Sprintf("-T:%d", t), "smt.random_seed=" + seedStr, f} }},
-	{"z3", func(f string, t int) []string { return []string{"z3", fmt.Sprintf("-T:%d", t), "smt.random_seed=" + seedStr, f} }},
+	{"z3-new", func(f string, t int) []string {
+		return []string{"z3-new", fmt.Sprintf("-T:%d", hardWall(t)), fmt.Sprintf("rlimit=%d", t*2500000), "smt.random_seed=" + seedStr, f}
+	}},
+	{"z3", func(f string, t int) []string {
+		return []string{"z3", fmt.Sprintf("-T:%d", hardWall(t)), fmt.Sprintf("rlimit=%d", t*5000000), "smt.random_seed=" + seedStr, f}
+	}},
 	{"cvc5", func(f string, t int) []string {
-		return []string{"cvc5", "--incremental", fmt.Sprintf("--tlimit=%d", t*1000), "--seed=" + seedStr, f}
+		return []string{"cvc5", "--incremental", fmt.Sprintf("--tlimit=%d", hardWall(t)*1000), fmt.Sprintf("--rlimit=%d", t*250000), "--seed=" + seedStr, f}
 	}},
 }
 
@@ -176,7 +186,7 @@ type solveResult struct {
 
 func runSolver(ctx context.Context, sp solverSpec, file string, timeoutS int) solveResult {
 	args := sp.args(file, timeoutS)
-	cctx, cancel := context.WithTimeout(ctx, time.Duration(timeoutS+2)*time.Second)
+	cctx, cancel := context.WithTimeout(ctx, time.Duration(hardWall(timeoutS)+5)*time.Second)
 	defer cancel()
 	t0 := time.Now()
 	cmd := exec.CommandContext(cctx, args[0], args[1:]...)
@@ -378,7 +388,8 @@ func batchDischarge(u *Unit, obls []*Obligation, dir string, perQueryMs int) {
 	}
 	var sb strings.Builder
 	sb.WriteString(u.smtHeader(len(u.cmds)))
-	fmt.Fprintf(&sb, "(set-option :timeout %d)\n", perQueryMs)
+	// per-query budget of the incremental session: a resource limit as well (about perQueryMs of work on an idle core)
+	fmt.Fprintf(&sb, "(set-option :rlimit %d)\n", perQueryMs*2500)
 	nf := 0
 	// vacuity guard: the entry assumptions (type invariants + requires) must not be contradictory
 	for nf < u.nFactsEntry && nf < len(u.facts) {
@@ -413,7 +424,7 @@ func batchDischarge(u *Unit, obls []*Obligation, dir string, perQueryMs int) {
 	if err := os.WriteFile(file, []byte(sb.String()), 0o666); err != nil {
 		return
 	}
-	total := perQueryMs/1000*len(obls) + 10
+	total := 4*(perQueryMs/1000)*len(obls) + 60
 	ctx, cancel := context.WithTimeout(context.Background(), time.Duration(total)*time.Second)
 	defer cancel()
 	t0 := time.Now()
